@@ -321,7 +321,7 @@ def plan_ladder(tier, seed):
                 units.append({"kind": "ladder", "fn": fn, "items": small[i:i + 12], "seed": sd, "tier": tier, "count": 800})
             for it in big:
                 units.append({"kind": "ladder", "fn": fn, "items": [it], "seed": sd, "tier": tier, "count": it[1] ** 3 // 300 if fn == "floyd_warshall" else 3000 if it[1] < 8000 else 6000})
-        rows.append({"name": f"{fn} size ladder", "nodes": list(sizes), "variants": vs, "cases_planned": n_items,
+        rows.append({"name": f"{fn} size ladder", "nodes": list(sizes), "variants": vs, "cases_planned": n_items, "note": "variants that do not exist at a size are skipped (negative-cycle and reversed-path Bellman-Ford above 1100/2100 nodes, long PageRank runs above 140 nodes); evaluated counts per function and mode are in cases_per_function_and_mode",
                      "edges": "about 2.2-2.5 per node: random arborescence + random arcs + duplicated / reversed copies + self loops + unreachable region",
                      "oracle": "oracles/c12_big.py (certifying, near-linear)"})
     if q:
@@ -353,8 +353,8 @@ def coincidence_cases(n, damping, cs, seed, with_default_budget=True):
         if not (lo < hi * (1 - 1e-3)) or min(ch[:c - 1]) <= hi * (1 - 1e-9):
             continue  # the sequence of changes is not strictly decreasing up to sweep c: c is not a clean stopping sweep
         tol = math.sqrt(lo * hi)
-        if not (lo * (1 + 1e-4) < tol < hi * (1 - 1e-4)):
-            continue
+        if not (lo * (1 + 1e-4) < tol < hi * (1 - 1e-4)) or tol < 1e-10:
+            continue  # (changes below 1e-10 approach the rounding noise of a sweep: no clean stopping sweep there)
         budgets = list(range(max(1, c - 2), c + 6)) + ([100] if with_default_budget else [])
         for mi in budgets:
             out.append({"fn": "pagerank_edges", "n": n, "edges": edges, "damping": damping, "tol": tol, "max_iter": mi, "trace": True,
@@ -383,7 +383,7 @@ def plan_coincidence(tier, seed):
                 units.append({"kind": "coincidence", "fn": "pagerank_edges", "n": n, "damping": d, "cs": cs, "seed": f"{seed}/{rep}", "tier": tier,
                               "count": 12000 if big else 600})
     row = {"name": "pagerank_edges option coincidence", "nodes": list(sizes),
-           "options": "tol = geometric mean of two consecutive max-norm changes of an independent power iteration (stopping sweep c known, margin >= 1e-4 relative); "
+           "options": "tol = geometric mean of two consecutive max-norm changes of an independent power iteration (stopping sweep c known, margin >= 1e-4 relative, tol >= 1e-10); "
                       "max_iter = c-2 .. c+5 and 100; damping 0.85 / 0.6" + ("" if q else " / 0.95 / 0.3"),
            "stopping_sweeps": "5, 6 at >= 2049 nodes, 3..10 below" if q else "3..10, 17..20, 30..33",
            "graphs": len(units)}
